@@ -1,7 +1,7 @@
 (* C03 - codon-level mutators act on exactly the in-frame codons inside the region.
    Only statements, closed by `exact`, and their assumptions. *)
 From VV Require Import Model.Base Model.Pattern Model.Seq Model.CodonTable Model.Transcript Model.Mutators
-  Spec.PatternSpec Spec.CodonSpec Spec.RegionSpec Proofs.CodonTableProofs Proofs.CodonProofs Proofs.RegionProofs Generated.DefaultTable Generated.KernelsFrame Proofs.KernelFrameEquiv Generated.KernelsLift Proofs.KernelLiftEquiv Model.MutatorsGlue Model.Cdna Proofs.CdnaProofs.
+  Spec.PatternSpec Spec.CodonSpec Spec.RegionSpec Proofs.CodonTableProofs Proofs.CodonProofs Proofs.RegionProofs Generated.DefaultTable Generated.KernelsFrame Proofs.KernelFrameEquiv Generated.KernelsLift Proofs.KernelLiftEquiv Model.MutatorsGlue Model.Cdna Proofs.CdnaProofs Model.LiftExons Proofs.LiftExonsProofs Model.Gtf Proofs.GtfProofs.
 
 (* the codon windows produced for a region cut by Transcript._get_cds_seq are exactly the triplets of the annotated
    reading frame (strand-aware, from the GTF frame of the exon) whose three bases lie inside the region: every frame,
@@ -154,6 +154,23 @@ Theorem C03_cdna_noncoding_region : forall tb cds q r ms,
    Ok (map canon (keep_in_region r (fst rows) ++ keep_in_region r (snd rows)))).
 Proof. exact cdna_noncoding_region. Qed.
 
+(* from the annotation file to the exons (loaders/gtf.cds_features_to_exons): with the CDS features of the transcript in ascending order,
+   on the plus strand they are numbered as they stand and the stop codon is added to the last one; on the minus strand they are numbered
+   from the last one backwards, the stop codon is added below the first one, and the exons are returned in ascending order *)
+Theorem C03_gtf_exons_plus : forall cds, cds <> [] -> cds_ascending cds ->
+  cds_to_exons Plus cds = number_exons 0 (add_stop true cds).
+Proof. exact cds_to_exons_plus. Qed.
+
+Theorem C03_gtf_exons_minus : forall f cds, cds_ascending (f :: cds) ->
+  cds_to_exons Minus (f :: cds) = (do l <- number_exons 0 (rev cds ++ [with_stop false f]); Ok (rev l)).
+Proof. exact cds_to_exons_minus. Qed.
+
+Example C03_gtf_example :
+  cds_to_exons Plus [mkCdsF 30 40 1; mkCdsF 10 20 0] = Ok [mkEx 10 20 0 0; mkEx 30 43 1 1] /\
+  cds_to_exons Minus [mkCdsF 30 40 0; mkCdsF 10 20 2] = Ok [mkEx 7 20 1 2; mkEx 30 40 0 0] /\
+  cds_ascending [mkCdsF 10 20 0; mkCdsF 30 40 1].
+Proof. split; [vm_compute; reflexivity|]. split; [vm_compute; reflexivity|]. unfold cds_ascending; cbn; repeat split; try lia; intros x [<-|[]]; cbn; lia. Qed.
+
 Print Assumptions C03_codon_windows_exact.
 Print Assumptions C03_inframe_exact.
 Print Assumptions C03_top_replacement_exact.
@@ -170,3 +187,6 @@ Print Assumptions C03_frame_arithmetic_matches_source.
 Print Assumptions C03_range_clamp_matches_source.
 Print Assumptions C03_cdna_coding_region.
 Print Assumptions C03_cdna_noncoding_region.
+Print Assumptions C03_gtf_exons_plus.
+Print Assumptions C03_gtf_exons_minus.
+Print Assumptions C03_gtf_example.
